@@ -1,12 +1,20 @@
 (* C06 — no device behaviour or port failure can crash the driver; bounded writes. *)
 From GV Require Import Base.Bytes Base.Hex Base.LE Vedirect.Frame Vedirect.FrameFacts
-     Vedirect.Port Vedirect.Driver Vedirect.DriverFacts.
+     Vedirect.Port Vedirect.Driver Vedirect.DriverFacts Vedirect.DriverSpec.
 
 (* for every logger configuration, every driver state (any buffered bytes, any device
    script, any write/read/flush fault schedule), every call kind and address: no panic *)
 Theorem C06_no_panic : forall c idle k s, fst (do_call c idle k s) <> Panic.
 Proof. exact do_call_no_panic. Qed.
 Print Assumptions C06_no_panic.
+
+(* ... and every call returns: the modelled loops (bufio's ReadBytes, the async-skipping loop,
+   the eight tries) terminate within the supplied fuel for every script, including ports that
+   deliver empty reads forever *)
+Theorem C06_total : forall c idle k s,
+  fst (do_call c idle k s) <> OutOfFuel /\ fst (do_call c idle k s) <> Panic.
+Proof. exact do_call_total. Qed.
+Print Assumptions C06_total.
 
 Theorem C06_response_parser_total :
   forall cmd rd, parse_response cmd rd <> Panic /\ parse_response cmd rd <> OutOfFuel.
